@@ -17,7 +17,7 @@ RULE = (
     "cells outside}: compared with a NumPy corner-sum reference (lower index clipped to [0,n-2], unclipped "
     "weights), 1e-9 relative; integer coordinates must return the entries. (grid) LinspaceGrid/LogspaceGrid over "
     "12 orders of magnitude of start/stop, n=2..200, values anywhere (linear) / inside the range (log), scalar, "
-    "vmapped and jitted: coordinate(node_i) = i (1e-9 abs), coordinates strictly increasing for values whose gap "
+    "vmapped and jitted: coordinate(node_i) = i for the first and the last nodes and for the stop bound itself (1e-9 abs), coordinates strictly increasing for values whose gap "
     "exceeds 1e-9 of the range (and never decreasing beyond 1e-12), and map_coordinates(nodes, coordinate(x)) = x "
     "(1e-9 relative to the range); all tolerances are widened by the floating-point resolution of the inputs, 16*eps*max(|start|,|stop|) in value units. Non-trivial: kernel: rank>=2 with a fractional coordinate and one outside the "
     "index range; grid: n>=3. Distinct by case digest."
@@ -129,15 +129,19 @@ def check_grid(case):
     def coord(x):
         return g.get_coordinate(x)
 
+    # nodes whose coordinate is checked: the first ones, the last ones, and the stop bound itself
+    node_idx = sorted(set(list(range(min(n, 10))) + list(range(max(0, n - 3), n))))
+    node_vals = np.concatenate([nodes[node_idx], [float(b)]])
+    node_exp = np.asarray(node_idx + [n - 1], dtype=float)
     if case["mode"] == "scalar":
         cx = np.asarray([float(call_lcm(coord, jnp.asarray(x))) for x in xs])
-        cn = np.asarray([float(call_lcm(coord, jnp.asarray(x))) for x in nodes[: min(n, 12)]])
+        cn = np.asarray([float(call_lcm(coord, jnp.asarray(x))) for x in node_vals])
     else:
         f = jax.vmap(coord)
         if case["mode"] == "jit":
             f = jax.jit(f)
         cx = np.asarray(call_lcm(f, jnp.asarray(xs)))
-        cn = np.asarray(call_lcm(f, jnp.asarray(nodes[: min(n, 12)])))
+        cn = np.asarray(call_lcm(f, jnp.asarray(node_vals)))
     msgs = []
     desc = f"{cls.__name__}(start={a!r}, stop={b!r}, n_points={n})"
     # floating-point resolution of the inputs: a value near max(|a|,|b|) is only known up to
@@ -150,8 +154,8 @@ def check_grid(case):
         step_min = rng / (n - 1)
     res_c = 16 * eps * big / step_min
     res_x = 16 * eps * big
-    if not (np.abs(cn - np.arange(len(cn))) <= 1e-9 * max(1, n) + res_c).all():
-        msgs.append(f"{desc}: coordinates of the first nodes are {cn.tolist()}")
+    if not (np.abs(cn - node_exp) <= 1e-9 * max(1, n) + res_c).all():
+        msgs.append(f"{desc}: coordinates of the nodes {node_idx} and of stop are {cn.tolist()}")
     # monotone
     for i in range(len(xs) - 1):
         gap = xs[i + 1] - xs[i]
